@@ -478,6 +478,97 @@ def gen_orderlimit(rng, cat):
     return Q('orderlimit', cat, body, order_pos, ' ORDER BY ' + ', '.join(items), lim, off, ts, feats)
 
 
+def gen_cte_collide(rng, cat):
+    """a CTE named like a REAL table of another integration; the real table is referenced with its integration in every
+    table position the probe knows (plain FROM, nested FROM, join operand, IN / scalar sub-query, UNION side; EXISTS over a planned
+    sub-query has no documented step meaning and is not generated), the
+    CTE is defined over a different table (so the rows differ) and is itself used or not"""
+    feats = ['cte', 'cte-collide']
+    T = rng.choice(TABLES)                                   # the real table, always written intK.name
+    A = rng.choice([t for t in TABLES if t[0] != T[0]])      # source of the CTE
+    B = rng.choice([t for t in TABLES if t not in (T, A)])   # a third table
+    name = T[1]
+    real = '%s.%s' % T
+    cw = ''
+    if rng.random() < 0.3:
+        cw = ' WHERE %s %s %d' % (rng.choice(COLS), rng.choice(CMP), rng.randrange(3))
+    cte = 'WITH %s AS (SELECT id, x, y FROM %s.%s%s) ' % (name, A[0], A[1], cw)
+    tabs = [A, T]
+    use_cte_sub = ''          # an extra conjunct that really uses the CTE
+    if rng.random() < 0.5:
+        use_cte_sub = '%s %sIN (SELECT %s FROM %s)' % ('%s' + rng.choice(COLS), rng.choice(['', 'NOT ']), rng.choice(COLS), name)
+        feats.append('cte-used-in-subquery')
+
+    def where(quals, extra=None):
+        parts = []
+        if rng.random() < 0.5:
+            parts.append(wrap(tree(rng, quals, feats, rng.choice([0, 1]), allow_sub=False)))
+        if extra:
+            parts.append(extra)
+        if use_cte_sub and rng.random() < 0.8:
+            parts.append(use_cte_sub % rng.choice(quals))
+        return (' WHERE ' + ' AND '.join(parts)) if parts else ''
+
+    pos = rng.choice(['plain', 'plain', 'nested', 'nested', 'join-right', 'join-left', 'join-with-cte', 'in', 'in', 'in',
+                      'scalar', 'union-right', 'union-left', 'union-with-cte'])
+    feats.append('pos:' + pos)
+    names = None
+    if pos == 'plain':
+        al = rng.choice(ALIASES + [None, None])
+        q = (al or name) + '.'
+        sel = rng.sample(COLS, rng.choice([1, 2, 3]))
+        body = 'SELECT %s FROM %s%s%s' % (', '.join(q + c for c in sel), real, (' AS ' + al) if al else '', where([q]))
+        names = [q + c for c in sel]
+    elif pos == 'nested':
+        iw = ''
+        if rng.random() < 0.4:
+            iw = ' WHERE %s %s %d' % (rng.choice(COLS), rng.choice(CMP), rng.randrange(3))
+        sel = rng.sample(COLS, rng.choice([1, 2, 3]))
+        body = 'SELECT %s FROM (SELECT id, x, y FROM %s%s) AS s%s' % (', '.join('s.' + c for c in sel), real, iw, where(['s.']))
+        names = ['s.' + c for c in sel]
+    elif pos in ('join-right', 'join-left', 'join-with-cte'):
+        jk = rng.choice(JOIN_KINDS)
+        feats.append('join:' + jk)
+        if pos == 'join-with-cte':
+            left, lq = name, name + '.'
+        else:
+            left, lq = '%s.%s AS a' % B, 'a.'
+            tabs.append(B)
+        if pos == 'join-left':
+            frm = '%s AS b %s %s ON %sid = b.id' % (real, jk, left, lq)
+        else:
+            frm = '%s %s %s AS b ON %sid = b.id' % (left, jk, real, lq)
+        body = 'SELECT %sx, b.y FROM %s%s' % (lq, frm, where([lq, 'b.']))
+        names = [lq + 'x', 'b.y']
+    elif pos in ('in', 'scalar'):
+        tabs.append(B)
+        iw = ''
+        if rng.random() < 0.4:
+            iw = ' WHERE %s %s %d' % (rng.choice(COLS), rng.choice(CMP), rng.randrange(3))
+        if pos == 'in':
+            cond = 'a.%s %sIN (SELECT %s FROM %s%s)' % (rng.choice(COLS), rng.choice(['', '', 'NOT ']), rng.choice(COLS), real, iw)
+        else:
+            cond = 'a.%s %s (SELECT %s(%s) FROM %s%s)' % (rng.choice(COLS), rng.choice(CMP), rng.choice(['max', 'min', 'count']),
+                                                          rng.choice(COLS), real, iw)
+        sel = rng.sample(COLS, 2)
+        body = 'SELECT %s FROM %s.%s AS a%s' % (', '.join('a.' + c for c in sel), B[0], B[1], where(['a.'], cond))
+        names = ['a.' + c for c in sel]
+    else:
+        k = rng.choice([1, 2, 3])
+        c1, c2 = rng.sample(COLS, k), rng.sample(COLS, k)
+        side_real = 'SELECT %s FROM %s' % (', '.join(c2), real)
+        if pos == 'union-with-cte':
+            other = 'SELECT %s FROM %s' % (', '.join(c1), name)
+        else:
+            other = 'SELECT %s FROM %s.%s' % (', '.join(c1), B[0], B[1])
+            tabs.append(B)
+        op = rng.choice(['UNION', 'UNION ALL', 'UNION ALL'])
+        body = ('%s %s %s' % (side_real, op, other)) if pos == 'union-left' else ('%s %s %s' % (other, op, side_real))
+        return Q('cte', cat, cte + body, tables=tabs, feats=feats)
+    op, osql, lim, off = order_limit(rng, len(names), names, feats, 0.25, 0.2)
+    return Q('cte', cat, cte + body, op, osql, lim, off, tabs, feats)
+
+
 def gen_nested(rng, cat):
     feats = ['nested']
     r = rng.random()
@@ -577,8 +668,10 @@ def gen_query(rng):
         return gen_insub(rng, cat)
     if r < 0.78:
         return gen_union(rng, cat)
-    if r < 0.86:
+    if r < 0.82:
         return gen_cte(rng, rng.choice(['default', 'default', 'project']))
+    if r < 0.88:
+        return gen_cte_collide(rng, rng.choice(['default', 'default', 'project']))
     if r < 0.96:
         return gen_nested(rng, cat)
     return gen_api(rng, 'api3')
